@@ -1,7 +1,7 @@
 (* C10: how each testing construct classifies a value, read off one model step.
    Definitions only (extracted for the direct oracle); the theorems are in Truth.v. *)
 From Coq Require Import NArith List Bool Arith.
-From GV Require Import Gen.Instr Gen.Exec Gen.Dispatch Model.OpDispatch Spec.Falsy.
+From GV Require Import Gen.Instr Gen.Exec Gen.Truth Gen.Dispatch Model.OpDispatch Spec.Falsy.
 Import ListNotations.
 
 (* ------------------- (b) how each construct classifies a value, read off a step *)
